@@ -420,7 +420,32 @@ def _witness(ctx):
         run_schedule(ctx, "self-recursive-same", S.single_preemption(0, k, 1), "directed-single-preemption", start=0, params=(0, k))
 
 
-DIRECTED = {"unbound-recursion-stub-window": _witness}
+def _guard_does_not_change_what_a_retort_is(ctx):
+    """The lock that serialises searches (repository fix 6ad978d) is internal: a fresh retort can still be deep-copied, and a
+    ConversionRetort pickled, as on the pinned tree (the first version of the fix stored a bare RLock and broke both: fixed 1185944);
+    every copy owns its own lock."""
+    import copy  # noqa: PLC0415
+    import pickle  # noqa: PLC0415
+
+    from adaptix import Retort  # noqa: PLC0415
+    from adaptix.conversion import ConversionRetort  # noqa: PLC0415
+    for label, fn in (("deepcopy(Retort())", lambda: copy.deepcopy(Retort())), ("deepcopy(ConversionRetort())", lambda: copy.deepcopy(ConversionRetort())),
+                      ("copy(Retort())", lambda: copy.copy(Retort())), ("pickle(ConversionRetort())", lambda: pickle.loads(pickle.dumps(ConversionRetort())))):  # noqa: S301
+        out = attempt(fn)
+        ctx.evaluated(("directed-copy", label), nontrivial=True)
+        ctx.count("copies")
+        if out.kind != "ok":
+            ctx.violation("guard-breaks-copying", f"{label} raised {out.exc!r:.200}", {"what": label})
+    r = Retort()
+    c = copy.deepcopy(r)
+    if getattr(r, "_provide_lock", None) is not None and getattr(c, "_provide_lock", None) is r._provide_lock:
+        ctx.violation("guard-shared-between-copies", "a deep copy of a retort shares the search lock of the original", {})
+    out = attempt(c.load, ["1"], typing.List[str])
+    if out.kind != "ok" or out.value != ["1"]:
+        ctx.violation("guard-breaks-copying", f"a deep copy of a fresh retort does not load: {out!r:.200}", {})
+
+
+DIRECTED = {"unbound-recursion-stub-window": _witness, "guard-does-not-change-what-a-retort-is": _guard_does_not_change_what_a_retort_is}
 
 
 def teardown(ctx):
